@@ -122,11 +122,4 @@ def time_Date (y m d h mi s ns : Int) (_loc : Unit) : Time :=
   ((daysFromCivil y m d * 24 + h) * 60 + mi) * 60 * 1000000000 + s * 1000000000 + ns
 end Go
 
-/-- `err.Error()` -/
-def _root_.Option.Error (e : GoError) : String :=
-  match e with
-  | some (.other s) => s
-  | some (.sentinel s) => s
-  | _ => ""
-
 end Gk
